@@ -1,0 +1,51 @@
+/*
+ * Atree - Scalable Arrays and Ordered Maps
+ *
+ * Copyright Flow Foundation
+ *
+ * Licensed under the Apache License, Version 2.0 (the "License");
+ * you may not use this file except in compliance with the License.
+ * You may obtain a copy of the License at
+ *
+ *   http://www.apache.org/licenses/LICENSE-2.0
+ *
+ * Unless required by applicable law or agreed to in writing, software
+ * distributed under the License is distributed on an "AS IS" BASIS,
+ * WITHOUT WARRANTIES OR CONDITIONS OF ANY KIND, either express or implied.
+ * See the License for the specific language governing permissions and
+ * limitations under the License.
+ */
+
+//go:build verif
+
+package atree
+
+//@ # ---------------------------------------------------------------- array_metadata_slab.go
+
+//@ pred hdrOf(x ArraySlab) = ite(is(x, *ArrayDataSlab), as(x, *ArrayDataSlab).header, as(x, *ArrayMetaDataSlab).header)
+
+//@ # local well-formedness of an index slab: cumulative counts are the running sum of the child counts, every child is non-empty
+//@ # (so the cumulative counts are strictly increasing), the slab's own count and size summarise its header list.
+//@ pred wfMeta(a *ArrayMetaDataSlab) = a != nil && len(a.childrenHeaders) == len(a.childrenCountSum) && len(a.childrenHeaders) >= 1 &&
+//@      a.childrenCountSum[0] == a.childrenHeaders[0].count &&
+//@      (forall k :: 1 <= k && k < len(a.childrenHeaders) ==> a.childrenCountSum[k] == a.childrenCountSum[k - 1] + a.childrenHeaders[k].count) &&
+//@      (forall k :: 0 <= k && k < len(a.childrenHeaders) ==> a.childrenHeaders[k].count >= 1) &&
+//@      a.header.count == a.childrenCountSum[len(a.childrenHeaders) - 1] &&
+//@      a.header.size == 12 + 14 * len(a.childrenHeaders)
+
+//@ lemma monoCS(a *ArrayMetaDataSlab, i int, j int) induction j  serves C01 C05
+//@   requires wfMeta(a) && 0 <= i && i <= j && j < len(a.childrenCountSum)
+//@   ensures a.childrenCountSum[i] <= a.childrenCountSum[j] && (i < j ==> a.childrenCountSum[i] < a.childrenCountSum[j])
+
+//@ func (a *ArrayMetaDataSlab) childSlabIndexInfo(index) (chi, adjusted, childID, err)  serves C01 C18
+//@   requires wfMeta(a)
+//@   uses monoCS
+//@   ensures[C18] index >= a.header.count ==> err != nil && isUser(err)
+//@   ensures[C01] index < a.header.count ==> err == nil && 0 <= chi && chi < len(a.childrenHeaders) &&
+//@        index < a.childrenCountSum[chi] && (chi > 0 ==> a.childrenCountSum[chi - 1] <= index) &&
+//@        adjusted == index - ite(chi > 0, a.childrenCountSum[chi - 1], 0) && adjusted < a.childrenHeaders[chi].count &&
+//@        childID == a.childrenHeaders[chi].slabID
+//@   pure
+//@   loop 1: invariant 0 <= i && i <= len(a.childrenCountSum) && childHeaderIndex == 0 && (forall j :: 0 <= j && j < i ==> a.childrenCountSum[j] <= index)
+//@   loop 2: invariant 0 <= low && low <= high && high <= count && (forall j :: 0 <= j && j < low ==> a.childrenCountSum[j] <= index) &&
+//@        (forall j :: high <= j && j < count ==> a.childrenCountSum[j] > index)
